@@ -153,12 +153,12 @@ func Load(opt Options) (*Program, error) {
 				opt2 := opt
 				opt2.Overlay = merged
 				opt2.noCanon = true
-				p2, err := Load(opt2)
-				if err != nil {
-					return nil, fmt.Errorf("second load (canonical names: %s): %w", strings.Join(notes, "; "), err)
+				// best effort: if the renamed sources do not type-check (a name collision the
+				// discovery did not foresee) the tree is analysed under its own names
+				if p2, err := Load(opt2); err == nil {
+					Renames = notes
+					return p2, nil
 				}
-				Renames = notes
-				return p2, nil
 			}
 		}
 	}
